@@ -60,11 +60,29 @@ for name, patch, prop in items:
     results.append(r)
     print("%-55s %s tests=%s exit=%s %s" % (name, prop, r.get("tests_pass"), r.get("check_exit"), ",".join(r.get("oracles", []))), flush=True)
 os.makedirs(os.path.join(HERE, "sensitivity"), exist_ok=True)
-if not only:
-    json.dump({"tier": tier, "results": results}, open(os.path.join(HERE, "sensitivity", "RESULTS.json"), "w"), indent=1)
-    with open(os.path.join(HERE, "sensitivity", "RESULTS.md"), "w") as f:
-        f.write("# Sensitivity run (%s tier)\n\n| change | property | 30 tests pass | check exit | detected by |\n|---|---|---|---|---|\n" % tier)
-        for r in results:
-            f.write("| %s | %s | %s | %s | %s |\n" % (r["name"], r["property"], r.get("tests_pass"), r.get("check_exit"), ", ".join(r.get("oracles", [])) or r.get("status", "-")))
-        det = sum(1 for r in results if r.get("detected"))
-        f.write("\n%d of %d changes detected (exit 1 with a replay file).\n" % (det, len(results)))
+rj = os.path.join(HERE, "sensitivity", "RESULTS.json")
+if only and os.path.exists(rj):
+    # partial run: merge into the existing table
+    old = json.load(open(rj))["results"]
+    by = {r["name"]: r for r in old}
+    for r in results:
+        by[r["name"]] = r
+    results = [by[k] for k in sorted(by)]
+json.dump({"tier": tier, "results": results}, open(rj, "w"), indent=1)
+with open(os.path.join(HERE, "sensitivity", "RESULTS.md"), "w") as f:
+    f.write("# Sensitivity run (%s tier)\n\nEvery planted change (`mutants/`) and every sub-agent-seeded change (`seeded/`), applied to a scratch copy of the repository, "
+            "30 baseline tests first, then the quick tier of the check that owns its property. Changes assessed as outside the property carry an `assessment` in `seeded/<id>/meta.json`.\n\n"
+            "| change | property | 30 tests pass | check exit | detected by |\n|---|---|---|---|---|\n" % tier)
+    for r in results:
+        note = ""
+        if r["name"].startswith("seeded/") and not r.get("detected"):
+            try:
+                m = json.load(open(os.path.join(HERE, r["name"], "meta.json")))
+                note = "not detected: " + (m.get("assessment", "")[:110] + "...") if m.get("assessment") else "not detected"
+                if m.get("detected_by"):
+                    note = "detected by the %s check (see meta.json)" % m["detected_by"]
+            except Exception:
+                note = "not detected"
+        f.write("| %s | %s | %s | %s | %s |\n" % (r["name"], r["property"], r.get("tests_pass"), r.get("check_exit"), ", ".join(r.get("oracles", [])) or note or r.get("status", "-")))
+    det = sum(1 for r in results if r.get("detected"))
+    f.write("\n%d of %d changes detected (exit 1 with a replay file).\n" % (det, len(results)))
